@@ -225,9 +225,15 @@ static Verdict run_pkt(const PktCase &c) {
   s->stop_at = (uint8_t)c.stop_at; s->stop_how = (uint8_t)c.stop_how; s->timeout_action = (uint8_t)c.timeout_action; s->wait_timeout_end = (uint8_t)c.wait_timeout_end;
   fill_plans(s->plans, c.plan, c.faults);
   std::unique_ptr<c16p_out> o(new c16p_out());
-  alarm(300);
-  c16p_run(s.get(), o.get());
-  alarm(0);
+  // hang policy of the framework (DESIGN 0.1): a ceiling that was hit counts only if it is hit in 3 of 3 runs of the same scenario
+  for (int attempt = 0; attempt < 3; attempt++) {
+    memset(o.get(), 0, sizeof(c16p_out));
+    alarm(300);
+    c16p_run(s.get(), o.get());
+    alarm(0);
+    if (!o->hang) break;
+    label("hang_rerun");
+  }
   return evaluate_pkt(c, *o);
 }
 
@@ -742,9 +748,14 @@ static Verdict run_conn(const ConnCase &c) {
   snprintf(s->dir, sizeof(s->dir), "%s", scratch_dir().c_str());
   fill_plans(s->plans, c.plan, c.faults);
   std::unique_ptr<c16c_out> o(new c16c_out());
-  alarm(300);
-  c16c_run(s.get(), o.get());
-  alarm(0);
+  for (int attempt = 0; attempt < 3; attempt++) {  // hang policy: 3 of 3
+    memset(o.get(), 0, sizeof(c16c_out));
+    alarm(300);
+    c16c_run(s.get(), o.get());
+    alarm(0);
+    if (!o->hang) break;
+    label("hang_rerun");
+  }
   return evaluate_conn(c, *o);
 }
 
